@@ -243,6 +243,35 @@ pub fn check(case: &Case, l: &mut Local) -> Verdict {
             want.as_ref().map(|m| m.show()).unwrap_or_else(|| "no match".into())
         ));
     }
+    // the other ways to run the same search must give the prescribed match too: a rotating quarter of the cases each
+    // goes through the PikeVM, the non-optimizing pipeline, or both
+    let extra: Option<(Engine, bool)> = match case.hash() % 4 {
+        0 => Some((Engine::Pike, false)),
+        1 => Some((Engine::Bt, true)),
+        2 => Some((Engine::Pike, true)),
+        _ => None,
+    };
+    if let Some((eng, no_opt)) = extra {
+        let re2 = if no_opt { compile(&case.pat, fl, true).ok() } else { Some(re.clone()) };
+        if let Some(re2) = re2 {
+            if let Out::Ms(v) = first_with(&re2, eng, Enc::Utf8, h, case.start, fuel).0 {
+                let got2 = v.into_iter().next();
+                if got2 != want {
+                    if let Some(id) = crate::kf::explain_match(&case.pat, fl, h, case.start, &got2, REF_LIMIT) {
+                        return Verdict::Known(id);
+                    }
+                    return Verdict::Fail(format!(
+                        "{:?} executor ({}) finds {} but ECMAScript semantics give {}",
+                        eng,
+                        if no_opt { "no_opt" } else { "opt" },
+                        got2.as_ref().map(|m| m.show()).unwrap_or_else(|| "no match".into()),
+                        want.as_ref().map(|m| m.show()).unwrap_or_else(|| "no match".into())
+                    ));
+                }
+                l.class(if eng == Engine::Pike { "also_checked_on_pikevm" } else { "also_checked_without_optimizer" });
+            }
+        }
+    }
     let t = tf(&case.pat);
     let kinds = [t.backref, t.lookbehind, t.lookahead, t.split, t.group, t.class, t.anchor, t.mods].iter().filter(|x| **x).count();
     if want.is_some() {
@@ -535,7 +564,7 @@ pub fn run(ctx: &Ctx) -> i32 {
     ctx.run_variant(&VD, ctx.scale(200_000, 3_000_000));
     ctx.finish(
         "exploration",
-        "(bounded-exhaustive) ALL patterns of a small grammar - atoms {a, b, ., [ab], [^a], \\1, ^, $, \\b}, 11 quantifier shapes (greedy and lazy), the six group kinds (capture, non-capture, (?=) (?<=) (?!) (?<!)) around a one- or two-atom body or alternative, optionally quantified, preceded or followed by an atom; every pair of level-1 items - x ALL haystacks in {a,b}^<=4 x starts 0 and 1; a second slice for the flags - atoms {a, A, LF, ., [a], [^a], \\w, ^, $, \\b, \\B, \\1}, five quantifier shapes, every pair of items, the group kinds around an atom or a two-way alternative - under ALL 16 combinations of i, m, s x legacy/u (v for a quarter) x ALL haystacks over {a, A, LF} up to length 3 (200k pattern/flag combinations, 16M searches); plus random ES patterns, valid by construction, over all 24 flag sets (i,m,s x none/u/v), inline modifiers, themed alphabets (ASCII, case-special, 1-4 byte, line terminators, white space, word/non-word) and themed shapes (nested empty-matchable quantifiers, lazy loops + backreferences, backreference inside its own group, captures in lookbehind, anchors under scoped m, counts at 0/1/2, scoped i); haystacks <= 8 (12) code points, random or sampled from the pattern's own language; every start offset. Also compilable token soup (the parser's special cases: legacy octal / \\c / \\u fallbacks, Annex B class ranges, reserved punctuators) and patterns with group names duplicated across alternatives and \\k references. Oracle: esref, an independent spec-shaped ECMAScript reference model (ES2025 22.2 on code-point input) re-validated on every run against a frozen corpus of V8 verdicts. Compared: start, end and every capture slot of find_from(..).next(). Non-trivial = at least two construct kinds beyond literals and a decisive search (a match, or a failed search that consumed input).",
+        "(bounded-exhaustive) ALL patterns of a small grammar - atoms {a, b, ., [ab], [^a], \\1, ^, $, \\b}, 11 quantifier shapes (greedy and lazy), the six group kinds (capture, non-capture, (?=) (?<=) (?!) (?<!)) around a one- or two-atom body or alternative, optionally quantified, preceded or followed by an atom; every pair of level-1 items - x ALL haystacks in {a,b}^<=4 x starts 0 and 1; a second slice for the flags - atoms {a, A, LF, ., [a], [^a], \\w, ^, $, \\b, \\B, \\1}, five quantifier shapes, every pair of items, the group kinds around an atom or a two-way alternative - under ALL 16 combinations of i, m, s x legacy/u (v for a quarter) x ALL haystacks over {a, A, LF} up to length 3 (200k pattern/flag combinations, 16M searches); plus random ES patterns, valid by construction, over all 24 flag sets (i,m,s x none/u/v), inline modifiers, themed alphabets (ASCII, case-special, 1-4 byte, line terminators, white space, word/non-word) and themed shapes (nested empty-matchable quantifiers, lazy loops + backreferences, backreference inside its own group, captures in lookbehind, anchors under scoped m, counts at 0/1/2, scoped i); haystacks <= 8 (12) code points, random or sampled from the pattern's own language; every start offset. Also compilable token soup (the parser's special cases: legacy octal / \\c / \\u fallbacks, Annex B class ranges, reserved punctuators) and patterns with group names duplicated across alternatives and \\k references. Oracle: esref, an independent spec-shaped ECMAScript reference model (ES2025 22.2 on code-point input) re-validated on every run against a frozen corpus of V8 verdicts. Compared: start, end and every capture slot of find_from(..).next(); for a rotating three quarters of the cases also the PikeVM executor and / or the non-optimizing pipeline. Non-trivial = at least two construct kinds beyond literals and a decisive search (a match, or a failed search that consumed input).",
         &["esref (harness/src/esref) is the trusted base; its Unicode data are exported from V8/ICU (Unicode 17) and std, never from regress", "patterns on whose validity regress and esref disagree are C08's business and are skipped here (counted)", "fuel hook"],
     )
 }
